@@ -363,6 +363,11 @@ pub fn ids_words(xot: &Xot, seen: &Seen, dump: &Dump) -> String {
 pub fn observe(xml: &str, fragment: bool, with_spans: bool, dump: &Dump) -> (Xot, Vocab, Observed, String) {
     let mut xot = Xot::new();
     let mut vocab = Vocab::standard(&mut xot);
+    // the parser merges adjacent character data whatever the store's text-consolidation switch
+    // says (that switch is about the manipulation API): parse into stores with it off, too
+    if xml.len() % 3 == 0 {
+        xot.set_text_consolidation(false);
+    }
     let r = guarded(|| {
         if with_spans {
             if fragment {
